@@ -152,7 +152,7 @@ class DynCalcKick(Contract):
         ph, am = cx.old.sel(NEXT, h, '0'), cx.old.sel(NEXT, h, '1')
         offs = cx.arr('this._offset')
         inr = And(x >= 0, x < nx)
-        return [('uses_front', {'C19'}, Implies(inr, z3.Select(offs, x) == rf_offset_spec(cx, x, ph, am))),
+        return [('uses_front', {'C19', 'C12'}, Implies(inr, z3.Select(offs, x) == rf_offset_spec(cx, x, ph, am))),
                 ('table', {'C19'}, Implies(And(inr, e >= 0, e < cx.f('this._it', 'u8')), row_spec(cx, x, e, offs))),
                 ('queue_untouched', {'C19'}, And(cx.f(NEXT + '.head', 'u64') == h, cx.len(NEXT) == cx.old.len(NEXT),
                                                  cx.arr(NEXT, '0') == cx.old.arr(NEXT, '0'), cx.arr(NEXT, '1') == cx.old.arr(NEXT, '1')))]
@@ -180,7 +180,7 @@ class DynApply(Contract):
     name = 'vfps::DynamicRFKickMap::apply'
     tu = 'src/SM/DynamicRFKickMap.cpp'
     params = []
-    tags = {'C19'}
+    tags = {'C19', 'C12'}
     ghosts = {'x': 'int', 'e': 'int', 'k': 'int'}
 
     def setup(self, cx):
@@ -203,7 +203,7 @@ class DynApply(Contract):
                 ('records_one', {'C19'}, cx.len(PAST) == lp + 1),
                 # the modulation recorded for this step is the one the kick was computed with
                 ('records_used', {'C19'}, And(cx.sel(PAST, lp, '0') == cx.old.sel(NEXT, h, '0'), cx.sel(PAST, lp, '1') == cx.old.sel(NEXT, h, '1'))),
-                ('kick_uses_front', {'C19'}, Implies(And(cx.g('x') >= 0, cx.g('x') < cx.f(PS_NX)),
+                ('kick_uses_front', {'C19', 'C12'}, Implies(And(cx.g('x') >= 0, cx.g('x') < cx.f(PS_NX)),
                                                      cx.sel('this._offset', cx.g('x')) == rf_offset_spec(cx, cx.g('x'), cx.old.sel(NEXT, h, '0'), cx.old.sel(NEXT, h, '1')))),
                 ('earlier_records_kept', {'C19'}, Implies(And(cx.g('k') >= 0, cx.g('k') < lp), And(cx.sel(PAST, cx.g('k'), '0') == cx.old.sel(PAST, cx.g('k'), '0'),
                                                                                                   cx.sel(PAST, cx.g('k'), '1') == cx.old.sel(PAST, cx.g('k'), '1'))))]
